@@ -80,13 +80,13 @@ def events_for_case(o, cid, g, K, qs, ids):
     return evs
 
 
-def big_pair_event(ids, cid, n, ep, en, sc, ec, seed):
+def big_pair_event(ids, cid, n, ep, en, sc, ec, seed, i32=False):
     """n scored samples per class (interleaved integers), ep / en easy samples: declared vs materialised"""
     import numpy as np
     from score_analysis import Scores
     rnd = np.random.RandomState(seed)
     e = {"id": next(ids), "cid": cid, "op": "big_pair", "exc": "", "conc": "big", "n": n, "ep": ep, "en": en,
-         "lo": 0, "hi": int((2 * n - 1) * 1000), "thrA": {}, "thrB": {}, "cmA": [], "cmB": []}
+         "lo": 0, "hi": int((2 * n - 1) * 1000), "thrA": {}, "thrB": {}, "cmA": [], "cmB": [], "aucA9": -1, "aucB9": -1}
     try:
         pos, neg = np.arange(n) * 2.0 + 1.0, np.arange(n) * 2.0
         if sc == "neg":
@@ -95,7 +95,9 @@ def big_pair_event(ids, cid, n, ep, en, sc, ec, seed):
         high = sc == "pos"
         xp = (hi + 1 + np.arange(ep)) if high else (lo - 1 - np.arange(ep))
         xn = (lo - 1 - np.arange(en)) if high else (hi + 1 + np.arange(en))
-        a = Scores(pos, neg, nb_easy_pos=ep, nb_easy_neg=en, score_class=sc, equal_class=ec)
+        # the declared counts as Python ints, or as int32 scalars (e.g. read from a table)
+        a = Scores(pos, neg, nb_easy_pos=np.int32(ep) if i32 else ep, nb_easy_neg=np.int32(en) if i32 else en,
+                   score_class=sc, equal_class=ec)
         b = Scores(np.concatenate([pos, xp]), np.concatenate([neg, xn]), score_class=sc, equal_class=ec)
         fx = lambda t: [int(round(max(-2e6, min(2e6, float(x))) * 1000)) for x in np.asarray(t)]  # noqa
         for m in sd.METRICS:
@@ -106,6 +108,11 @@ def big_pair_event(ids, cid, n, ep, en, sc, ec, seed):
             rf = np.array([k / (2.0 * pop) for k in ks if 0 <= k <= 2 * pop])
             e["thrA"][m] = fx(getattr(a, "threshold_at_" + m)(rf))
             e["thrB"][m] = fx(getattr(b, "threshold_at_" + m)(rf))
+        if n <= 5000:
+            import warnings
+            with warnings.catch_warnings():
+                warnings.simplefilter("ignore")
+                e["aucA9"], e["aucB9"] = int(round(float(a.auc()) * 1e9)), int(round(float(b.auc()) * 1e9))
         th = np.concatenate([rnd.randint(0, 2 * n, 12) + rnd.choice([0.0, 0.5], 12), [0.0, 2.0 * n - 1.0]])
         for key, s in (("cmA", a), ("cmB", b)):
             e[key] = [[int(x[0, 0]), int(x[0, 1]), int(x[1, 0]), int(x[1, 1])] for x in s.cm(th).matrix]
@@ -138,6 +145,10 @@ def run(ctx: core.Ctx):
         events.append(big_pair_event(ids, len(cases), n, ep, en, ["pos", "neg"][k % 2], ["pos", "neg"][(k // 2 + 1) % 2],
                                      ctx.seed + k))
         cases.append({"kind": "big_pair", "n": n, "ep": ep, "en": en})
+    # moderate scored classes, easy counts given as int32 scalars whose products exceed 2^31
+    for k, (n, ep, en) in enumerate([(2000, 60000, 50000), (1500, 3, 70000)]):
+        events.append(big_pair_event(ids, len(cases), n, ep, en, ["pos", "neg"][k % 2], "pos", ctx.seed + 50 + k, i32=True))
+        cases.append({"kind": "big_pair", "n": n, "ep": ep, "en": en, "i32": True})
     for e in events[:2]:
         ctx.sample(e)
     ctx.judge("Trace_C08", events, cases=cases, batch=1500)
